@@ -222,6 +222,253 @@ def splice(caller, bb, callee):
     blk['term'] = {'k': 'goto', 'target': boff, 'line': line, 'col': call.get('col'), 'exp': False, 'inlined': callee.path}
 
 
+THEN = ('core::bool::<impl bool>::then', 'std::bool::<impl bool>::then')
+THEN_SOME = ('core::bool::<impl bool>::then_some', 'std::bool::<impl bool>::then_some')
+_R, _O = 'std::result::Result::<T, E>::', 'std::option::Option::<T>::'
+# combinator -> (position of the closure argument, {variant index: action}); actions:
+#   ('call', wrap)  dst = wrap(closure(payload))      ('call0', wrap)  dst = wrap(closure())
+#   ('pass', wrap)  dst = wrap(payload)               ('none',) dst = None      ('false',) dst = false      ('arg1', wrap) dst = wrap(args[1])
+COMBINATORS = {
+    _R + 'map': (2, {0: ('call', 'Ok', 1), 1: ('pass', 'Err')}),
+    _R + 'map_err': (2, {0: ('pass', 'Ok'), 1: ('call', 'Err', 1)}),
+    _R + 'and_then': (2, {0: ('call', None, 1), 1: ('pass', 'Err')}),
+    _R + 'or_else': (2, {0: ('pass', 'Ok'), 1: ('call', None, 1)}),
+    _R + 'unwrap_or_else': (2, {0: ('pass', None), 1: ('call', None, 1)}),
+    _R + 'map_or_else': (3, {0: ('call', None, 2), 1: ('call', None, 1)}),
+    _R + 'map_or': (3, {0: ('call', None, 2), 1: ('arg1', None)}),
+    _R + 'is_ok_and': (2, {0: ('call', None, 1), 1: ('false',)}),
+    _R + 'is_err_and': (2, {1: ('call', None, 1), 0: ('false',)}),
+    _O + 'map': (2, {1: ('call', 'Some', 1), 0: ('none',)}),
+    _O + 'and_then': (2, {1: ('call', None, 1), 0: ('none',)}),
+    _O + 'unwrap_or_else': (2, {1: ('pass', None), 0: ('call0', None, 1)}),
+    _O + 'ok_or_else': (2, {1: ('pass', 'Ok'), 0: ('call0', 'Err', 1)}),
+    _O + 'or_else': (2, {1: ('pass', 'Some'), 0: ('call0', None, 1)}),
+    _O + 'is_some_and': (2, {1: ('call', None, 1), 0: ('false',)}),
+    _O + 'map_or': (3, {1: ('call', None, 2), 0: ('arg1', None)}),
+    _O + 'map_or_else': (3, {1: ('call', None, 2), 0: ('call0', None, 1)}),
+}
+_WRAP = {'Ok': ('std::result::Result', 0), 'Err': ('std::result::Result', 1), 'Some': ('std::option::Option', 1)}
+_VNAME = {('R', 0): 'Ok', ('R', 1): 'Err', ('O', 1): 'Some', ('O', 0): 'None'}
+EFFECT_PREFIX = ('std::fs::', 'std::io::', 'std::process::', 'tokio::', 'fs2::', 'std::net::', 'std::os::', 'std::thread::', 'std::env::set')
+CLOSURE_CALLS = ('std::ops::FnOnce::call_once', 'std::ops::Fn::call', 'std::ops::FnMut::call_mut')
+
+
+def _generic_args(ty):
+    """top-level generic arguments of `path<A, B>` (None when there are none)"""
+    i = ty.find('<')
+    if i < 0 or not ty.endswith('>'):
+        return None
+    depth, cur, out = 0, '', []
+    for ch in ty[i + 1:-1]:
+        if ch in '<([':
+            depth += 1
+        elif ch in '>)]':
+            depth -= 1
+        if ch == ',' and depth == 0:
+            out.append(cur.strip())
+            cur = ''
+        else:
+            cur += ch
+    out.append(cur.strip())
+    return out
+
+
+def _option_payload(ty):
+    if re.match(r'^(?:std|core)::option::Option<', ty or ''):
+        a = _generic_args(ty)
+        return a[0] if a and len(a) == 1 else None
+    return None
+
+
+def _effectful(F, path, _seen=None):
+    """the closure (or a closure nested in it) performs a call that is an effect or leaves the closure: a crate-local fn, file /
+    process / socket APIs, or a captured closure"""
+    _seen = set() if _seen is None else _seen
+    if path in _seen:
+        return False
+    _seen.add(path)
+    for k, b in list(F.bodies.items()) + list(getattr(F, 'inlined', {}).items()):
+        if k != path and not k.startswith(path + '::{'):
+            continue
+        for blk in b.blocks:
+            t = blk['term']
+            if t['k'] != 'call':
+                continue
+            c = _callee(t) or ''
+            if c in F.bodies and '::{' not in c:
+                return True
+            if c.startswith(EFFECT_PREFIX) or c in CLOSURE_CALLS or t.get('inlined') or 'FileExt' in c:
+                return True
+        for blk in b.blocks:
+            if blk['term'].get('inlined') or blk['term'].get('desugared'):
+                return True
+    return False
+
+
+def _interesting(F, path):
+    """worth unfolding: the closure performs effects, or builds a value of one of the crate's own types (a reply, an action, an error)"""
+    if _effectful(F, path):
+        return True
+    for k, b in F.bodies.items():
+        if k != path and not k.startswith(path + '::{'):
+            continue
+        for blk in b.blocks:
+            for st in blk['stmts']:
+                rv = st['rv']
+                if rv['k'] == 'agg' and rv.get('ak') == 'adt' and not re.match(r'^(std|core|alloc)::', rv.get('adt', 'std::')):
+                    return True
+    return False
+
+
+def _closure_of(F, b, op):
+    """the body of the closure literal held by operand `op` (single definition in `b`), else None"""
+    if op['k'] == 'const' or op['p']['proj']:
+        return None
+    defs = [st for blk in b.blocks for st in blk['stmts'] if st['dst'] == op['p'] and st['rv']['k'] == 'agg' and st['rv'].get('ak') == 'closure']
+    alld = [st for blk in b.blocks for st in blk['stmts'] if st['dst']['l'] == op['p']['l']]
+    if len(defs) != 1 or len(alld) != 1:
+        return None
+    cb = F.bodies.get(re.sub(r'\bcopia::', '', defs[0]['rv']['def']))
+    if cb is None or cb.kind != 'closure' or len(cb.blocks) > MAX_BLOCKS:
+        return None
+    return cb
+
+
+def _agg(wrap, op):
+    adt, v = _WRAP[wrap]
+    return {'k': 'agg', 'ak': 'adt', 'adt': adt, 'variant': v, 'vname': wrap, 'fields': ['0'], 'ops': [op]}
+
+
+def _retire_closure(F, clo_body, new_parent):
+    for k, nbody in F.bodies.items():
+        if nbody.parent == clo_body.path:
+            nbody.parent = new_parent
+    if not hasattr(F, 'inlined'):
+        F.inlined = {}
+    if clo_body.path in F.bodies:
+        F.inlined[clo_body.path] = F.bodies.pop(clo_body.path)
+
+
+def _emit_closure_call(F, b, owner_path, clo_op, clo_body, arg_ops, ret_ty, wrap, dst, target, pos):
+    """blocks for  `dst = wrap(closure(args))`; returns the index of the entry block"""
+    b.locals.append({'ty': ret_ty, 'name': None, 'user': False})
+    tmp = {'l': len(b.locals) - 1, 'proj': []}
+    val = {'k': 'move', 'p': tmp}
+    b_wrap = len(b.blocks)
+    b.blocks.append({'stmts': [dict(pos, dst=dst, rv=(_agg(wrap, val) if wrap else {'k': 'use', 'ops': [val]}))], 'cleanup': False,
+                     'term': dict(pos, k='goto', target=target)})
+    b_call = len(b.blocks)
+    b.blocks.append({'stmts': [], 'cleanup': False,
+                     'term': dict(pos, k='call', func={'k': 'const', 'fn': 'std::ops::FnOnce::call_once', 'dbg': 'desugared closure call'},
+                                  args=[clo_op] + arg_ops, dst=tmp, target=b_wrap)})
+    cal = type('B', (), {})()
+    cal.locals, cal.blocks, cal.path = copy.deepcopy(clo_body.locals), copy.deepcopy(clo_body.blocks), clo_body.path
+    splice(b, b_call, cal)
+    b.blocks[b_call]['term']['desugared'] = True
+    return b_call
+
+
+def desugar(F):
+    """Closure-taking combinators become the control flow they stand for, with the closure body spliced in:
+      * `c.then(|| e)` / `c.then_some(v)`  ->  if c { Some(e) } else { None }           (always)
+      * `r.and_then(f)`, `.map(f)`, `.map_err(f)`, `.or_else(f)`, `.unwrap_or_else(f)`, `.ok_or_else(f)`, `.is_some_and(f)`, `.map_or(d, f)`
+        -> the equivalent `match`, when `f` is a closure literal that performs effects (file / process APIs, crate-local
+        calls, a captured closure).  Pure closures (projections, formatting, arithmetic) stay combinators: the value rules
+        read those as they are.
+    Innermost closures first, so a chain `open(..).and_then(|f| f.sync_all().map(|()| ..))` unfolds completely."""
+    done = []
+    order = sorted(F.bodies, key=lambda k: (-k.count('::{'), k))
+    for p in order:
+        b = F.bodies.get(p)
+        if b is None:
+            continue
+        bi = -1
+        while bi + 1 < len(b.blocks):
+            bi += 1
+            t = b.blocks[bi]['term']
+            if t['k'] != 'call' or t.get('target') is None or t['dst']['proj'] or not t.get('args') or t.get('exp'):
+                continue        # (calls written by a macro / derive expansion are left alone)
+            c = _callee(t)
+            pos = {'line': t.get('line'), 'col': t.get('col'), 'exp': False}
+            dst, target = t['dst'], t['target']
+            if c in THEN or c in THEN_SOME:
+                if len(t['args']) != 2:
+                    continue
+                payload = _option_payload(b.locals[dst['l']]['ty'])
+                if payload is None:
+                    continue
+                cond, second = t['args']
+                none = {'k': 'agg', 'ak': 'adt', 'adt': 'std::option::Option', 'variant': 0, 'vname': 'None', 'fields': [], 'ops': []}
+                clo_body = None
+                if c in THEN:
+                    clo_body = _closure_of(F, b, second)
+                    if clo_body is None or clo_body.argc != 1:
+                        continue
+                b_none = len(b.blocks)
+                b.blocks.append({'stmts': [dict(pos, dst=dst, rv=none)], 'cleanup': False, 'term': dict(pos, k='goto', target=target)})
+                if clo_body is None:
+                    b_some = len(b.blocks)
+                    b.blocks.append({'stmts': [dict(pos, dst=dst, rv=_agg('Some', second))], 'cleanup': False, 'term': dict(pos, k='goto', target=target)})
+                else:
+                    b_some = _emit_closure_call(F, b, p, second, clo_body, [], payload, 'Some', dst, target, pos)
+                    _retire_closure(F, clo_body, p)
+                b.blocks[bi]['term'] = dict(pos, k='switch', on=cond, targets=[[0, b_none]], otherwise=b_some, desugared=c.split('::')[-1])
+                b._cfg_cache = None
+                done.append((c.split('::')[-1], p))
+                continue
+            spec = COMBINATORS.get(c)
+            if spec is None:
+                continue
+            nargs, actions = spec
+            if len(t['args']) != nargs:
+                continue
+            recv = t['args'][0]
+            if recv['k'] == 'const' or recv['p']['proj']:
+                continue
+            kind = 'R' if c.startswith(_R) else 'O'
+            rty = b.locals[recv['p']['l']]['ty']
+            ga = _generic_args(rty)
+            if not ga or len(ga) != (2 if kind == 'R' else 1) or not re.match(r'^(?:std|core)::(?:result::Result|option::Option)<', rty):
+                continue
+            clos = {}
+            good = True
+            for v, act in actions.items():
+                if act[0] in ('call', 'call0'):
+                    cb_ = _closure_of(F, b, t['args'][act[2]])
+                    if cb_ is None or cb_.argc != (2 if act[0] == 'call' else 1):
+                        good = False
+                    clos[act[2]] = cb_
+            if not good or not any(_interesting(F, cb_.path) for cb_ in clos.values()):
+                continue
+            b.locals.append({'ty': 'isize', 'name': None, 'user': False})
+            dl = {'l': len(b.locals) - 1, 'proj': []}
+            entry = {}
+            for v, act in actions.items():
+                pty = ga[v] if kind == 'R' else ga[0]
+                payload = {'k': 'move', 'p': {'l': recv['p']['l'], 'proj': [{'dc': v, 'name': _VNAME[(kind, v)]}, {'f': 0, 'name': '0', 'ty': pty}]}}
+                if act[0] in ('call', 'call0'):
+                    cb_ = clos[act[2]]
+                    entry[v] = _emit_closure_call(F, b, p, t['args'][act[2]], cb_, [payload] if act[0] == 'call' else [], cb_.locals[0]['ty'], act[1], dst, target, pos)
+                else:
+                    if act[0] == 'pass':
+                        rv = _agg(act[1], payload) if act[1] else {'k': 'use', 'ops': [payload]}
+                    elif act[0] == 'none':
+                        rv = {'k': 'agg', 'ak': 'adt', 'adt': 'std::option::Option', 'variant': 0, 'vname': 'None', 'fields': [], 'ops': []}
+                    elif act[0] == 'false':
+                        rv = {'k': 'use', 'ops': [{'k': 'const', 'ty': 'bool', 'v': 0, 'dbg': 'false'}]}
+                    else:
+                        rv = _agg(act[1], t['args'][1]) if act[1] else {'k': 'use', 'ops': [t['args'][1]]}
+                    entry[v] = len(b.blocks)
+                    b.blocks.append({'stmts': [dict(pos, dst=dst, rv=rv)], 'cleanup': False, 'term': dict(pos, k='goto', target=target)})
+            for cb_ in clos.values():
+                _retire_closure(F, cb_, p)
+            b.blocks[bi]['stmts'].append(dict(pos, dst=dl, rv={'k': 'discr', 'p': {'l': recv['p']['l'], 'proj': []}}))
+            b.blocks[bi]['term'] = dict(pos, k='switch', on={'k': 'move', 'p': dl}, targets=[[0, entry[0]]], otherwise=entry[1], desugared=c.split('::')[-1])
+            b._cfg_cache = None
+            done.append((c.split('::')[-1], p))
+    return done
+
+
 def select(F):
     """{callee path: [(caller path, bb)]} of the helpers to splice"""
     anc = anchors()
@@ -257,7 +504,7 @@ def select(F):
 
 def apply(F, log=None):
     """inline the selected helpers (innermost first, up to three rounds); returns the list of spliced (callee, caller)"""
-    done = []
+    done = [('%s()' % k, p) for k, p in desugar(F)]
     for _ in range(3):
         sel = select(F)
         if not sel:
